@@ -23,11 +23,21 @@ type vpNum struct {
 
 func vpSymNum(name string, cb int, e int) vpNum {
 	n := vpNum{}
-	n.coef = vpUint64(name + "c")
-	vpAssume(n.coef < uint64(cb))
+	n.coef = vpCoef(name+"c", cb)
 	n.exp = vpChoice(name+"e", 2*e+1) - e
 	n.neg = vpBool(name + "n")
 	return n
+}
+
+// vpCoef draws a symbolic coefficient below cb (as few symbolic bits as needed).
+func vpCoef(name string, cb int) uint64 {
+	bits := 1
+	for (uint64(1) << uint(bits)) < uint64(cb) {
+		bits++
+	}
+	c := vpBits(name, bits)
+	vpAssume(c < uint64(cb))
+	return c
 }
 
 func (n vpNum) big() *decimal.Big {
